@@ -97,6 +97,13 @@ func (sp *spec) variants(enc []byte) []variant {
 		vs = append(vs, variant{"one-ff", "suffix", nil, []byte{0xFF}})
 	case 2:
 		vs = append(vs, variant{"reused+suffix", "suffix", other, rbytes(rng, 1+rng.IntN(16))})
+	case 3:
+		// the receiver first met an encoding cut short (refused, or accepted as something
+		// shorter): the decode that follows must not see anything of it
+		if len(other) > 1 {
+			vs = append(vs, variant{"reused-after-cut-short", "reused", exact(other[:len(other)-1], nil), nil},
+				variant{"reused-after-cut-in-half", "reused", exact(other[:len(other)/2], nil), nil})
+		}
 	}
 	return vs
 }
